@@ -11,7 +11,7 @@ Lemma step_rd sess me alt nd a res :
   match res with
   | Ok (nd', a', t') => AInv sess (set_thr a' RRd t') /\ node_frame nd nd'
   | Blocked => True
-  | Panic _ => cclosed (n_pcd nd) = true
+  | Panic site => cclosed (n_pcd nd) = true /\ site = "send on closed channel"%string
   end.
 Proof.
   intros Hinv H.
